@@ -2,7 +2,8 @@
    Statements only. *)
 From Coq Require Import NArith List Bool.
 From PV Require Import Spec.Cfg Model.Table Spec.NLR Validators.TableStruct Validators.TableComplete
-  Model.LRDriver Proofs.LRProofs Proofs.CompleteProofs Proofs.UnambigProofs Proofs.LRCompleteProofs.
+  Model.LRDriver Model.Scan Model.Parser Validators.LexSep Proofs.LRProofs Proofs.CompleteProofs
+  Proofs.UnambigProofs Proofs.LRCompleteProofs Proofs.ScanSepProofs.
 Import ListNotations.
 Local Open Scope N_scope.
 
@@ -84,9 +85,32 @@ Theorem C04_lr_complete :
 Proof. exact lr_driver_complete. Qed.
 Print Assumptions C04_lr_complete.
 
-(* NOT PROVED (partial): that the impl's scanner satisfies scan_ok for lexically unambiguous
-   inputs (C07 relates it to the documented order), and that GLRParser returns exactly that
-   tree; both are decided per generated case. *)
+(* part 4: the whole LR PARSER model -- table-driven scanner (token recognition in the order of
+   the state's actions with priorities and finish flags, lexical disambiguation), ws-based
+   layout skipping and the driver, i.e. [parse_full], the function compared with Parser.parse
+   on every run -- accepts every lexically separated sentence and returns its derivation tree.
+   [sep_tokens] is a boolean evaluated on the impl's table and recognizer match matrix: after
+   layout skipping each token starts where the matrix says it matches with the token's length,
+   and in every state with an action for that token no other terminal of the state matches
+   there (the state's action keys being distinct). *)
+Theorem C04_parser_complete :
+  forall c inp ann fst_tab nul_tab start pos0 t,
+    pc_layout c = None -> pc_consume c = true ->
+    table_complete (pc_g c) (pc_tb c) ann fst_tab nul_tab (pc_stop c) = true ->
+    det_table (pc_tb c) = true ->
+    (exists pr0, get_prod (pc_g c) 0 = Some pr0 /\ rhs pr0 = [NT start]) ->
+    wf_tree (pc_g c) t -> root_sym (pc_g c) t = Some (NT start) ->
+    sep_tokens (rx_of inp) (in_len inp) (pc_stop c) (pc_tb c)
+               (fun p => Some (skip_ws (pc_ws c) inp p)) pos0 (leaves t) = true ->
+    exists fuel t' rp lay tr,
+      parse_full c inp fuel pos0 = LROk t' rp lay tr /\ shape t' = shape t.
+Proof. exact parser_complete_separated. Qed.
+Print Assumptions C04_parser_complete.
+
+(* NOT PROVED (partial): completeness for inputs that need the lexical disambiguation rules
+   (several terminals of a state matching at one position; C07 relates the scanner to the
+   documented order), for LAYOUT-rule layout, and that GLRParser returns exactly that tree;
+   these are decided per generated case. *)
 
 (* non-vacuity: S' -> S ; S -> 'a'   with its 3-state table *)
 Definition g1 : grammar := [mkProd 0 [NT 1]; mkProd 1 [T 0]].
@@ -108,6 +132,14 @@ Proof.
   split; [vm_compute; reflexivity|]. vm_compute. do 4 eexists. split; reflexivity.
 Qed.
 
+(* non-vacuity of part 4: the same grammar, input "a " with ws = {32}, terminal 0 matching "a" *)
+Example C04_parser_nonvacuous :
+  let c := mkPConf g1 tb1 [mkTerm 10 false; mkTerm 10 false] 1 true true [32] None in
+  let inp := mkPInput [97; 32] [[1; 0]; [0; 0]] in
+  sep_tokens (rx_of inp) (in_len inp) (pc_stop c) (pc_tb c)
+             (fun p => Some (skip_ws (pc_ws c) inp p)) 0 [(0, 0, 1)] = true /\
+  exists t rp lay tr, parse_full c inp 10 0 = LROk t rp lay tr /\ leaves t = [(0, 0, 1)].
+Proof. split; [vm_compute; reflexivity|]. vm_compute. do 4 eexists. split; reflexivity. Qed.
 (* ---- GLR on deterministic tables (GLR driver model, Model/GLR.v) ---------------------------
    With a table that passes table_struct and table_complete and holds one action per cell,
    every tree of the GLR model's forest whose leaves are the tokens the LR model shifted IS
